@@ -11,6 +11,7 @@ The property's "plus random larger ones" is sampling (another family) and is not
 from __future__ import annotations
 
 import itertools
+import json
 import logging
 from typing import Any
 
@@ -488,6 +489,58 @@ def stealth_scenarios(tier: str) -> list[StealthScenario]:
     return out
 
 
+class StatusFieldScenario(ChangeScenario):
+    """Field criteria on a field OUTSIDE the spec (status.ready) that goes through falsy values (false, 0, ''): update/field handlers see
+    both sides of every transition as they are, daemons follow the current value."""
+    name = 'c15-statusfield'
+    prop = 'C15'
+
+    def check(self, env: Env) -> list[Violation]:
+        if env.end_reason in ('stall', 'livelock', 'step-budget', 'deadlock'):
+            return [self.viol(env, 'no-progress', f'execution ended with {env.end_reason}', end=env.end_reason)]
+        if env.deviations or env.owes() or self.carveouts(env):
+            return []
+        out: list[Violation] = []
+        values = [None] + [u[4] for u in self.params['user'] if u[1] == 'statusset']
+        want_ff = [(a, b) for a, b in zip(values, values[1:]) if json.dumps(a) != json.dumps(b)]
+        got_ff = [(p.get('old'), p.get('new')) for _, k, p in env.obs if k == 'call' and p['id'] == 'ff' and p['outcome'].startswith('ok')]
+        if [json.dumps(x) for x in got_ff] != [json.dumps(x) for x in want_ff]:
+            out.append(self.viol(env, 'wrong-selection', f"status.ready went through {values}; on.field(field='status.ready') was invoked with (old, new) = {got_ff}, "
+                                                         f"the transitions are {want_ff}", cls='falsy-field-value', handler='field'))
+        lo, hi = self.params['falsy'], self.params['truthy']
+        want_uf = sum(1 for a, b in want_ff if json.dumps(a) == json.dumps(hi) and json.dumps(b) == json.dumps(lo))
+        got_uf = sum(1 for _, k, p in env.obs if k == 'call' and p['id'] == 'uf' and p['outcome'].startswith('ok'))
+        if got_uf != want_uf:
+            out.append(self.viol(env, 'wrong-selection', f"status.ready went through {values}; on.update(field='status.ready', old={hi!r}, new={lo!r}) ran {got_uf} time(s), "
+                                                         f"{want_uf} transition(s) match", cls='falsy-field-value', handler='update'))
+        # the daemon with value=<falsy> runs exactly while the field holds that value
+        spans = []
+        for i, v in enumerate(values[1:]):
+            if json.dumps(v) == json.dumps(lo) and json.dumps(values[i]) != json.dumps(lo):
+                t0 = [u[0] for u in self.params['user'] if u[1] == 'statusset'][i]
+                spans.append(t0)
+        enters = [t for t, k, p in env.obs if k == 'daemon-enter' and p['id'] == 'dm']
+        if len(enters) != len(spans) or any(abs(a - b) > 1e-9 for a, b in zip(enters, spans)):
+            out.append(self.viol(env, 'wrong-selection', f"status.ready went through {values}; the daemon with value={lo!r} started at {enters}, the field took that value at {spans}",
+                                 cls='falsy-field-value', handler='daemon'))
+        return out
+
+
+def statusfield_scenarios() -> list[Scenario]:
+    out: list[Scenario] = []
+    for lo, hi in ((False, True), (0, 1), ('', 'x'), (False, 'x')):
+        for seq in ([hi, lo, hi], [lo, hi, lo], [hi, lo, lo, hi], [lo, hi]):
+            handlers = [dict(id='ev', on='event', script=['ok']), dict(id='c1', on='create', script=['ok']),
+                        dict(id='d1', on='delete', script=['ok']),      # the finalizer is there from the start: no extra cycles later
+                        dict(id='uf', on='update', field='status.ready', old=hi, new=lo, script=['ok']),
+                        dict(id='ff', on='field', field='status.ready', script=['ok']),
+                        dict(id='dm', on='daemon', field='status.ready', value=lo, reaction='obeys')]
+            user = [(1.0, 'create', 'm')] + [(4.0 + 4 * i, 'statusset', 'm', 'ready', v) for i, v in enumerate(seq)]
+            out.append(StatusFieldScenario(handlers=handlers, user=user, horizon=4.0 + 4 * len(seq) + 15, falsy=lo, truthy=hi,
+                                           settings={'persistence__consistency_timeout': 5.0}, delays=False, early_user=False, time_dev=False))
+    return out
+
+
 def causekind_scenarios() -> list[Scenario]:
     """'cause kind' as a criterion, in vivo: handlers of every kind (among them a resume handler that is filtered out when the process
     first sees the object and matches later) over histories with restarts; judged by C05's invocation rules, reported for C15."""
@@ -516,7 +569,7 @@ def run(tier: str, seed: int) -> CheckResult:
     stats = Stats()
     viols = table(tier, stats) + duplicates(stats) + multikey(stats)
     groups = [('stealth', stealth_scenarios(tier), 1 if tier == 'quick' else 2, 40.0 if tier == 'quick' else 400.0),
-              ('cause-kind', causekind_scenarios(), 0, 40.0)]
+              ('cause-kind', causekind_scenarios(), 0, 40.0), ('falsy-values-of-a-status-field', statusfield_scenarios(), 0, 30.0)]
     st2, v2, info, nscen = run_groups(groups, seed=seed)
     table_evals = stats.executions
     stats.merge(st2)
@@ -540,6 +593,8 @@ def scenario_from(name: str, params: dict[str, Any]) -> Scenario:
     if name == 'c15-causekind':
         causekind_scenarios()
         return globals()['CauseKindScenario'](**params)
+    if name == 'c15-statusfield':
+        return StatusFieldScenario(**params)
     return StealthScenario(**params)
 
 
